@@ -20,6 +20,7 @@ structure Block where
   sessions : List Nat := []
   gauge : Int := 0
   extra : List String := []
+  quies : Option (List (Nat × Nat × Bool) × List (Nat × Nat)) := none
 deriving Inhabited
 
 structure Hist where
@@ -219,6 +220,17 @@ def processConc (h : Hist) (b : Block) (otoks : List String) : Hist :=
     { h with blind := true, diff := some s!"event={evNo} kind=deadlock topic=conc :: {b.ev} outcomes {rest}",
              concViol := h.concViol.push ("C09", "deadlock", (" ".intercalate b.ev) ++ " :: tasks " ++ " ".intercalate rest) }
   | _ =>
+  -- C07 at the quiescent moment after the block, whatever else is found out about it
+  let h := match b.quies with
+    | none => h
+    | some (members, counts) =>
+      let h := (Spec.quiescentRegistry members counts b.gauge).foldl (fun (h : Hist) (v : String × String) =>
+        { h with concViol := h.concViol.push ("C07", v.1, (" ".intercalate b.ev) ++ " :: " ++ v.2) }) h
+      -- C10: a connection living in a session that is not the one registered under the same number
+      let twins := members.filter fun (m : Nat × Nat × Bool) => !m.2.2 && counts.any fun (c : Nat × Nat) => c.1 == m.2.1
+      if twins.isEmpty then h else
+        { h with concViol := h.concViol.push ("C10", "live-sessions-share-an-id",
+            (" ".intercalate b.ev) ++ s!" :: connections {twins.map Prod.fst} live in sessions numbered {twins.map fun (m : Nat × Nat × Bool) => m.2.1}, and other sessions are registered under the same numbers") }
   match parseConc b.ev with
   | none => { h with diff := some s!"event={evNo} kind=parse topic=conc :: cannot parse {b.ev}" }
   | some tasks =>
@@ -263,7 +275,8 @@ def processConc (h : Hist) (b : Block) (otoks : List String) : Hist :=
       -- unique ids, convergent views and a consistent registry at the next quiescent moment.  Ids are checked here, the
       -- views by the view monitor (which is fed the block as it is); the other monitors lose their reference picture.
       let answers := b.ds.map Prod.snd
-      let pids := answers.filterMap fun o => match o with | .joinResp _ sid _ pid => some (sid, pid) | _ => none
+      -- a session that ends within the block may be followed by another under the same number: the UUID tells them apart
+      let pids := answers.filterMap fun o => match o with | .joinResp _ sid uuid pid => some (sid, uuid, pid) | _ => none
       let eids := answers.filterMap fun o => match o with | .entityAddResp _ e => some e | _ => none
       let aids := answers.filterMap fun o => match o with | .assetAddResp _ a => some a | _ => none
       let dup (l : List Nat) : Bool := l.eraseDups.length != l.length
@@ -374,6 +387,12 @@ partial def loop (stdin : IO.FS.Stream) (h : Option Hist) (b : Block) : IO Unit 
     let ids := (rest.filter fun t => !(t.startsWith "g=") && !(t.startsWith "[")).filterMap String.toNat?
     loop stdin h { b with sessions := ids, gauge }
   | "X" :: rest => loop stdin h { b with extra := b.extra ++ [" ".intercalate rest] }
+  | "Q" :: "members" :: rest =>
+    let (ms, ss) := rest.span (· != "|")
+    let nums (t : String) : List Nat := (t.splitOn ":").filterMap String.toNat?
+    let members := ms.filterMap fun t => match nums t with | [c, s, f] => some (c, s, f == 1) | _ => none
+    let counts := (ss.drop 2).filterMap fun t => match nums t with | [s, n] => some (s, n) | _ => none
+    loop stdin h { b with quies := some (members, counts) }
   | "O" :: rest =>
     let h := h.map fun h => if b.ev.head? == some "conc" then processConc h b rest else processBlock h b (parseOutcome rest)
     loop stdin h {}
